@@ -188,6 +188,9 @@ func (w *walker) walk(v reflect.Value, path string) {
 			if w.skip != nil && w.skip(path, f) {
 				continue
 			}
+			if f.Type.Kind() == reflect.Interface && strings.HasPrefix(f.Type.String(), "client.") {
+				continue // a collaborator (the API client), not state
+			}
 			if t == tInstType && f.Name == "allocatableOfferings" {
 				continue // lazily computed cache: digested on its own (snapshot.go), "unset -> set" is not a change
 			}
